@@ -1125,6 +1125,15 @@ def is_linear_tree(fd):
     return False
 
 
+def contains_conj(fd):
+    t = fd['t']
+    if t == 'leaf':
+        return False
+    if t == 'sepsum':
+        return any(contains_conj(p) for p in fd['parts'])
+    return t == 'conj' or contains_conj(fd['f'])
+
+
 NO_CONJ = ('IndicatorSimplex', 'IndicatorSumConstraint')
 
 
